@@ -58,7 +58,6 @@ Definition render_raw_lim (F : floatlayer) (lim : Z) (v : value) : option ctext 
   | _ => Some (render_raw F v)
   end.
 
-(* the guard: |z| < 10^4300 (the power is computed once; ProofsLim.lim_bound_eq) *)
-Definition lim_bound : Z := Eval vm_compute in 10 ^ 4300.
-Definition int_in_limit (z : Z) : bool := Z.abs z <? lim_bound.
+(* the guard: |z| < 10^4300 *)
+Definition int_in_limit (z : Z) : bool := Z.abs z <? 10 ^ int_max_str_digits.
 Definition value_in_limit (v : value) : bool := match v with VInt z => int_in_limit z | _ => true end.
